@@ -39,7 +39,16 @@ def r_tree_fill(ck: Checker) -> None:
     else:
         raise Unsupported("Tree.__init__: loop target is neither a record name nor a full unpacking of the record", lp)
     n = "REC"
-    aliases = [st for st in fn.body[:fn.body.index(lp)] if isinstance(st, ast.Assign) and len(st.targets) == 1 and isinstance(st.targets[0], ast.Name)]
+    # a local and an attribute bound to each other name one table: `x = self._t` as well as `self._t = x`
+    same: dict[str, ast.expr] = {}
+    for st in fn.body[:fn.body.index(lp)]:
+        if isinstance(st, ast.Assign) and len(st.targets) == 1:
+            tg, vl = st.targets[0], st.value
+            if isinstance(tg, ast.Attribute) and norm(tg.value) == "self" and isinstance(vl, ast.Name):
+                same[vl.id] = ast.Attribute(value=ast.Name(id="self", ctx=ast.Load()), attr=tg.attr, ctx=ast.Load())
+    aliases = [st for st in fn.body[:fn.body.index(lp)] if isinstance(st, ast.Assign) and len(st.targets) == 1 and isinstance(st.targets[0], ast.Name)
+               and st.targets[0].id not in same]
+    sub.update(same)
     lbody = [ast.fix_missing_locations(_Subst(sub).visit(copy.deepcopy(st))) for st in lp.body]
     lv = decision_tree(aliases + lbody, resolve=True)
     if len(lv) != 1 or lv[0].outcome != "fall":
@@ -72,6 +81,9 @@ def r_tree_fill(ck: Checker) -> None:
     else:
         ck.violation("R-TREE-FILL", f, lp, what, construct=f"xpath store: {norm(xp.value)[:110] if xp is not None else None}")
     inits = {norm(st.target if isinstance(st, ast.AnnAssign) else st.targets[0]): st for st in fn.body if isinstance(st, (ast.Assign, ast.AnnAssign))}
+    for loc, attr in same.items():  # the initial value of the table is that of the local it was bound to
+        if loc in inits and isinstance(inits.get(norm(attr)), (ast.Assign, ast.AnnAssign)) and norm(inits[norm(attr)].value) == loc:
+            inits[norm(attr)] = inits[loc]
     x0 = inits.get("self._node_to_xpath")
     p0 = inits.get("self._node_to_parent_info")
     what = "the membership table contains the root, the parent table does not"
